@@ -234,6 +234,55 @@ UNIQUE_KEYS = [
 ]
 
 
+def comparator_key_fields(cb):
+    """For a comparator closure |x, y| whose only result is key(x).cmp(key(y)) - or the reverse, or a `then` chain of such
+    comparisons - return (whole element compared?, set of top-level tuple fields of the element the key reads); None otherwise."""
+    ps = Walker(cb, SORT_FACTS, max_paths=16).run()
+    if len(ps) != 1 or ps[0].end[0] != 'return':
+        return None
+
+    def side(t, n):
+        """(term with the parameter replaced by X, fields read) when t depends on parameter n only"""
+        fields, whole, other = set(), [False], [False]
+
+        def go(x):
+            if not isinstance(x, tuple) or not x:
+                return x
+            if x == ('param', n):
+                whole[0] = True
+                return ('X',)
+            if x[0] == 'param':
+                other[0] = True
+                return x
+            if x[0] == 'field':
+                base = x[1]
+                while isinstance(base, tuple) and base and base[0] in ('deref', 'ref'):
+                    base = base[1]
+                if base == ('param', n):
+                    fields.add(x[2])
+                    return ('X', x[2])
+            return tuple(go(y) if isinstance(y, tuple) else y for y in x)
+        r = go(t)
+        if other[0]:
+            return None
+        return r, fields, whole[0]
+
+    def one(t):
+        if t[0] == 'cmp':
+            for n1, n2 in ((2, 3), (3, 2)):
+                a, d = side(t[1], n1), side(t[2], n2)
+                if a and d and a[0] == d[0]:
+                    return a[2], a[1]
+            return None
+        if t[0] == 'call' and t[1].rsplit('::', 1)[-1] == 'then' and 'Ordering' in t[1] and len(t[2]) == 2:
+            l, r = one(t[2][0]), one(t[2][1])
+            if l is None or r is None:
+                return None
+            return l[0] or r[0], l[1] | r[1]
+        return None
+    return one(ps[0].end[1])
+
+
 def sort_is_canonical(body, t):
     """does this sort call put the Vec into an order that does not depend on the order it had before?  A full `sort` does (equal
     elements are identical); a `sort_by_key` only if its key tells all elements apart: it reads every field of the element
@@ -241,7 +290,7 @@ def sort_is_canonical(body, t):
     nm = cname(t) or ''
     if nm in ('sort', 'sort_unstable'):
         return True
-    if not nm.endswith('by_key'):
+    if not (nm.endswith('by_key') or nm in ('sort_by', 'sort_unstable_by')):
         return False
     c = callee_of(t)
     args = c.get('args') or []
@@ -256,6 +305,18 @@ def sort_is_canonical(body, t):
     cb = cbs[0]
     read = set()
     whole = False
+    if not nm.endswith('by_key'):
+        # a comparator: canonical when it is key(x).cmp(key(y)) (either direction, possibly chained with `then`) for one key
+        # function, and that key tells all elements apart
+        got = comparator_key_fields(cb)
+        if got is None:
+            return False
+        whole, read = got
+        arity = len(top_level_args('X<' + elem.strip()[1:-1] + '>')) if elem.startswith('(') else 1
+        if whole or len(read) >= arity:
+            return True
+        fn = strip_generics(body.root_parent or body.path)
+        return any(f == fn and elem.replace(' ', '') == el.replace(' ', '') and need <= read for f, el, need, reason in UNIQUE_KEYS)
     for blk in cb.blocks:
         for st in blk['stmts']:
             if st['k'] != 'assign':
